@@ -217,3 +217,83 @@ Proof. intros. eapply R_sorted. eapply reach_RInv; eauto. Qed.
 Theorem reported_le_offset_proved :
   forall q s evs c p r, reach adm_mono q s evs -> In r (reports c p evs) -> r <= offset s p.
 Proof. intros. rewrite offset_offs. eapply R_le; eauto. eapply reach_RInv; eauto. Qed.
+
+(* ---- within one subscription, whatever the updates do ---- *)
+(* the delivered offset of an existing subscription never goes down: no hypothesis on the
+   schedule or on the offsets passed to Update (the watcher ignores a stored offset that is not
+   above what it delivered; Unsubscribe + Subscribe make a new subscription starting at 0) *)
+Theorem delivered_never_decreases_proved :
+  forall s a s' o c p d d', step s a = Some (s', o) ->
+  subv (chans s) c p = Some d -> subv (chans s') c p = Some d' -> d <= d'.
+Proof.
+  intros s a s' o c p d d' H Hd Hd'.
+  assert (Same : (forall c' p', subv (chans s') c' p' = subv (chans s) c' p') -> d <= d').
+  { intros E. rewrite E, Hd in Hd'. inv Hd'. lia. }
+  assert (Putc : forall c0 ch x, get c0 (chans s) = Some ch -> c_subs x = c_subs ch -> chans s' = set c0 x (chans s) -> d <= d').
+  { intros c0 ch x G E Ec. apply Same. intros c' p'. rewrite Ec. eapply subv_set_same; eauto. }
+  assert (Uns : forall c0 p0 s1 b, uns_core c0 p0 s = Some (s1, b) -> chans s' = chans s1 -> d <= d').
+  { intros c0 p0 s1 b U Ec. destruct (uns_core_spec _ _ _ _ _ U) as (S & _). rewrite Ec, S in Hd'.
+    destruct ((c =? c0) && (p =? p0)); [discriminate|]. rewrite Hd in Hd'. inv Hd'. lia. }
+  destruct a; cbn [step] in H.
+  - inv H. unfold new_chan in H1. destruct (q_ch (quo s) <=? count_live (chans s)); [inv H1; apply Same; auto|].
+    assert (K : forall m, s' = set_metrics (set_nextc (putc (nextc s) (mkChan subj [] false true false WNone) s) (nextc s + 1)) m -> d <= d').
+    { intros m ->. cbn in Hd'. rewrite subv_set in Hd'. destruct (c =? nextc s); [discriminate|]. rewrite Hd in Hd'. inv Hd'. lia. }
+    destruct (get subj (metrics s)) as [[nc ns]|]; [destruct (q_chs (quo s) <=? nc)|rewrite first_checked_true in H1; destruct (q_chs (quo s) <=? 0)]; inv H1;
+      try (apply Same; reflexivity); eapply K; reflexivity.
+  - inv H. apply Same. intros. unfold upd_store. cbn. rewrite ensure_chans. reflexivity.
+  - destruct (upd_enq p0 s) as [s1|] eqn:E; inv H. apply upd_enq_spec in E; subst. apply Same. reflexivity.
+  - destruct (has (KUpd p0) (calls s) && negb (can_enq s) && upd_blocking); inv H. apply Same. reflexivity.
+  - inv H. destruct (sub_reg_cases _ _ _ _ _ H1) as [->|(_ & s0 & H0 & ->)]; [apply Same; reflexivity|].
+    destruct (sub_reg0_spec _ _ _ _ H0) as (ch & L & _ & S & _). pose proof (live_chan_get _ _ _ L) as G.
+    rewrite mark_chans, S in Hd'. destruct ((c =? c0) && (p =? p0)) eqn:E; [|rewrite Hd in Hd'; inv Hd'; lia].
+    apply andb_true_iff in E. destruct E as [E1 E2]. apply N.eqb_eq in E1, E2; subst.
+    unfold subv in Hd. rewrite G in Hd. rewrite Hd in Hd'. inv Hd'. lia.
+  - destruct (has (KSub c0 p0 false) (calls s)); inv H. apply Same. reflexivity.
+  - destruct (has (KSub c0 p0 true) (calls s) && can_enq s); inv H. apply Same. reflexivity.
+  - inv H. unfold uns_reg in H1. destruct (live_chan s c0); [|inv H1; apply Same; reflexivity].
+    destruct (uns_core c0 p0 s) as [[s1 [|]]|] eqn:U; inv H1; try (apply Same; reflexivity); eapply Uns; eauto.
+  - destruct (has (KUns c0 p0 false) (calls s)); inv H. apply Same. reflexivity.
+  - destruct (has (KUns c0 p0 true) (calls s) && can_enq s); inv H. apply Same. reflexivity.
+  - unfold cln_term in H. destruct (nextc s <=? c0); [discriminate|]. destruct (live_chan s c0) as [ch|] eqn:L; [|inv H; apply Same; reflexivity].
+    pose proof (live_chan_get _ _ _ L) as G. destruct (c_term ch); inv H; [apply Same; reflexivity|].
+    eapply (Putc c0 ch (ch_term ch true)); eauto.
+  - destruct (cln_reg c0 p0 s) as [s1|] eqn:E; inv H. unfold cln_reg in E.
+    destruct (cln_rem c0 (calls s)); [|discriminate]. destruct (memN p0 l); [|discriminate].
+    destruct (uns_core c0 p0 s) as [[s1 [|]]|] eqn:U; inv E; eapply Uns; eauto.
+  - destruct (cln_fin c0 s) as [s1|] eqn:E; inv H. unfold cln_fin in E.
+    destruct (has (KCln c0 [] false) (calls s)); [|discriminate]. destruct (get c0 (chans s)) as [ch|] eqn:G; [|discriminate].
+    destruct (metric s (c_subj ch)). inv E. eapply (Putc c0 ch (ch_live ch false)); eauto.
+  - destruct (notif s); try discriminate. destruct (queue s); inv H. apply Same. reflexivity.
+  - destruct (notif s); inv H. apply Same. reflexivity.
+  - destruct (notif s); try discriminate. destruct (memN c0 rem); inv H.
+    destruct (get c0 (chans s)) as [ch|] eqn:G; [eapply (Putc c0 ch (ch_tok ch true)); eauto | apply Same; reflexivity].
+  - destruct (live_chan s c0) as [ch|] eqn:L; [|inv H; apply Same; reflexivity]. pose proof (live_chan_get _ _ _ L) as G.
+    destruct (c_w ch); inv H; try (apply Same; reflexivity). eapply (Putc c0 ch (ch_w ch WIdle)); eauto.
+  - destruct (get c0 (chans s)) as [ch|] eqn:G; [|discriminate]. destruct (c_w ch); try discriminate. destruct (c_tok ch); inv H.
+    eapply (Putc c0 ch (ch_w (ch_tok ch false) WGot)); eauto.
+  - destruct (get c0 (chans s)) as [ch|] eqn:G; [|discriminate]. destruct (c_w ch); inv H.
+    cbn in Hd'. rewrite subv_set in Hd'. destruct (c =? c0) eqn:E; [|rewrite Hd in Hd'; inv Hd'; lia].
+    apply N.eqb_eq in E; subst. cbn in Hd'. rewrite get_scan_mark in Hd'. unfold subv in Hd. rewrite G in Hd. rewrite Hd in Hd'. inv Hd'.
+    destruct (d <? offset s p) eqn:El; [apply N.ltb_lt in El; lia | lia].
+  - destruct (get c0 (chans s)) as [ch|] eqn:G; [|discriminate]. destruct (c_w ch); inv H. eapply (Putc c0 ch (ch_w ch WIdle)); eauto.
+  - destruct (get c0 (chans s)) as [ch|] eqn:G; [|discriminate].
+    assert (K : s' = putc c0 (ch_w ch WDone) s) by (destruct (c_w ch); inv H; reflexivity). subst. eapply (Putc c0 ch (ch_w ch WDone)); eauto.
+  - inv H. apply Same. reflexivity.
+  - destruct (m =? 1); [destruct (calls s); inv H; apply Same; reflexivity|]. destruct (m =? 2); [destruct (quiet s); inv H; apply Same; reflexivity|].
+    destruct (m =? 3); [destruct (quiet s && (count_live (chans s) =? 0)); inv H; apply Same; reflexivity|]. inv H. apply Same. reflexivity.
+  - discriminate.
+Qed.
+
+(* and a scan reports, for each subscription, only an offset strictly above the delivered one,
+   which becomes the new delivered offset *)
+Theorem scan_reports_above_delivered_proved :
+  forall s c s' o ch u p x, step s (AWScan c) = Some (s', o) -> get c (chans s) = Some ch ->
+  wv (chans s') c = WPend u -> In (p, x) u ->
+  exists d, In (p, d) (c_subs ch) /\ d < x /\ x = offset s p.
+Proof.
+  intros s c s' o ch u p x H G Hw Hin. cbn [step] in H. rewrite G in H. destruct (c_w ch); inv H.
+  cbn in Hw. rewrite wv_set, N.eqb_refl in Hw. cbn in Hw. inv Hw.
+  unfold scan_units in Hin. apply in_flat_map in Hin. destruct Hin as [[p' d] [Hs Hx]]. cbn in Hx.
+  destruct (d <? offset s p') eqn:El; [|destruct Hx]. destruct Hx as [Hx|[]]. inv Hx.
+  exists d. apply N.ltb_lt in El. auto.
+Qed.
